@@ -8,6 +8,7 @@ import (
 	"os"
 	"testing"
 
+	"github.com/trustbloc/sidetree-go/pkg/hashing"
 	"github.com/trustbloc/sidetree-go/pkg/jws"
 	"github.com/trustbloc/sidetree-go/pkg/jwsutil"
 	"github.com/trustbloc/sidetree-go/pkg/versions/1_0/doccomposer"
@@ -83,6 +84,39 @@ func TestC16_Regress(t *testing.T) {
 			}
 		}
 		st.Case(true, "regress:F13:"+x, "regress")
+	}
+}
+
+func TestC06_Regress(t *testing.T) {
+	st := statsFor("C06")
+	// F16: line breaks inside / around an encoded multihash
+	for _, h := range []string{"\nEiBPU82hjCuqDANUu1-aPsvl7RKrTY4Ruoc8LxEWEgK5RQ", "EiBPU82hjCuqDANUu1-aPsvl7RKrTY4Ruoc8LxEWEgK5RQ\n", "EiBPU82hjCuqDANUu1-aPs\r\nvl7RKrTY4Ruoc8LxEWEgK5RQ"} {
+		if c, err := hashing.GetMultihashCode(h); err == nil {
+			t.Errorf("C06 regress F16: GetMultihashCode(%q) = %d, want an error", h, c)
+		}
+		if hashing.IsComputedUsingMultihashAlgorithms(h, []uint{18, 19}) {
+			t.Errorf("C06 regress F16: %q accepted as computed with sha2-256", h)
+		}
+		st.Case(true, "regress:F16:"+h, "regress")
+	}
+}
+
+func TestC15_Regress(t *testing.T) {
+	st := statsFor("C15")
+	// F17: compact JWS with a line break inside a segment
+	k := pool()[ktEd25519][0]
+	j := signCompact(k, map[string]interface{}{"alg": "EdDSA"}, []byte("payload"), 0)
+	if _, err := jwsutil.VerifyJWS(j, k.LibJWK()); err != nil {
+		t.Fatalf("harness: %v", err)
+	}
+	for _, pos := range []int{0, 5, len(j) / 2, len(j) - 3, len(j)} {
+		for _, nl := range []string{"\n", "\r\n"} {
+			bad := j[:pos] + nl + j[pos:]
+			if _, err := jwsutil.VerifyJWS(bad, k.LibJWK()); err == nil {
+				t.Errorf("C15 regress F17: JWS with a line break at %d verified", pos)
+			}
+			st.Case(true, "regress:F17:"+bad, "regress")
+		}
 	}
 }
 
